@@ -68,6 +68,9 @@ HAND = [
     ([("ig", "d"), ("ig/f", "f"), ("ig/ig", "f"), ("v", "d"), ("v/ig", "d"), ("v/ig/q", "f"), ("v/w", "f"),
       ("v/x.o", "f"), ("li", "li:v")], ["v", "v/ig"], ["v/w"], ["ig", "*.o"], [],
      ["", "ig", "ig/f", "v", "v/ig", "v/x.o", "li"]),
+    # an already versioned directory with a plain ".bzr" subdirectory (tree-reference view of the dirstate tree)
+    ([("m", "d"), ("m/.bzr", "d"), ("m/b", "f"), ("m/q", "f"), ("m/s", "d"), ("m/s/y", "f"), ("z", "f")],
+     ["m"], ["z"], [], [], ["", "m", "m/b", "m/s", "m/s/y", "z"]),
 ]
 
 
@@ -101,7 +104,8 @@ def cases(rng, tier):
         for fmt in ("bzr", "git"):
             subsets = [s for k in (1, 2, 3) for s in itertools.combinations(names, k)]
             if tier == "quick":
-                subsets = subsets[:28] + rng.sample(subsets[28:], 22)
+                subsets = subsets[:28] + rng.sample(subsets[28:], min(22, len(subsets) - 28))
+            subsets += [tuple(reversed(s)) for s in subsets if len(s) == 2]      # order of the names matters
             for s in subsets:
                 for rec in (True, False) if len(s) < 3 else (True,):
                     cf = confl if fmt == "bzr" else [c for c in confl if c in vg]
@@ -109,7 +113,7 @@ def cases(rng, tier):
     yield _inp("bzr", [("f", "f")], [], [], [], [".bzr/checkout"], True)
     yield _inp("bzr", [("f", "f")], [], [], [], ["f", "nope"], True)
     yield _inp("git", [("f", "f")], [], [], [], ["nope", "f"], False)
-    n = 900 if tier == "quick" else 12000
+    n = 600 if tier == "quick" else 9000
     for _ in range(n):
         fmt = "bzr" if rng.random() < 0.6 else "git"
         lay = _random_layout(rng, fmt)
